@@ -84,6 +84,11 @@ func (s *State) evalIndexAssigment(which ast.Node, index, value object.Object) o
 			return s.NewError("index assignment out of bounds: " + index.Inspect())
 		}
 		elements := object.Elements(val)
+		if object.Constant(id.Literal()) {
+			// Large arrays are written in place: work on a copy so that the constant check in Set
+			// compares the old value with the new one (and refuses) instead of seeing the change already made.
+			elements = append(object.MakeObjectSlice(len(elements)), elements...)
+		}
 		elements[idx] = value
 		oerr := s.env.Set(id.Literal(), object.NewArray(elements))
 		if oerr.Type() == object.ERROR {
@@ -92,6 +97,9 @@ func (s *State) evalIndexAssigment(which ast.Node, index, value object.Object) o
 		return value
 	case object.MAP:
 		m := val.(object.Map)
+		if object.Constant(id.Literal()) {
+			m = m.Append(object.NewMap()) // a copy: big maps are changed in place, see the array case.
+		}
 		m = m.Set(index, value)
 		oerr := s.env.Set(id.Literal(), m)
 		if oerr.Type() == object.ERROR {
@@ -491,6 +499,9 @@ func (s *State) deleteMapEntry(idxE *ast.IndexExpression, index object.Object) o
 	}
 	log.LogVf("remove map: %s from %s", index.Inspect(), id)
 	m := obj.(object.Map)
+	if object.Constant(id) {
+		m = m.Append(object.NewMap()) // a copy: big maps are changed in place, the constant check in Set must see the old value.
+	}
 	m, changed := m.Delete(index)
 	if !changed {
 		return object.FALSE
